@@ -8,6 +8,7 @@ import GwModel.CacheRun
 import GwModel.Gen.Facts
 import GwModel.Insert
 import GwModel.Point
+import GwModel.FindPts
 /-! gwdrv: one JSON object per line in, one per line out (DESIGN §2.2). Core + Lean.Data.Json only. -/
 open Lean Codec
 
@@ -100,6 +101,38 @@ def runInsert (j : Json) : Json :=
     return Json.mkObj [("result", encIns st cur)]
   (act.run {}).1
 
+/-- Go's `%v` of an id value -/
+def renderId : Ins.J → String
+  | .null => "<nil>"
+  | .leaf s => match Json.parse s with
+    | .ok (.str t) => t
+    | _ => s
+  | _ => "?"
+
+/-- {"infos":[{"key":"users","found":true,"isList":true,"nonNull":false},…], "chunk":{…}, "pre":["me"]}:
+    the realised insertion paths, rendered, or {"error": kind} -/
+def runFindPts (j : Json) : Json :=
+  let act : StateM Intern Json := do
+    let _ ← Intern.intern "id"     -- key 0
+    let mut infos : List Fp.PInfo := []
+    for i in getArr j "infos" do
+      let k ← Intern.intern (getStr i "key")
+      infos := infos ++ [{ key := k, found := getBool i "found", isList := getBool i "isList", nonNull := getBool i "nonNull" }]
+    let chunk ← decIns ((getObj? j "chunk").getD (Json.mkObj []))
+    let st ← MonadState.get
+    let pre := strList j "pre"
+    match chunk with
+    | .obj kvs =>
+      match Fp.findPts infos kvs [] with
+      | .error e => return Json.mkObj [("error", .str (reprStr e))]
+      | .ok paths =>
+        let render (q : Fp.RPt) : String :=
+          st.name q.key ++ (match q.idx with | some i => ":" ++ toString i | none => "") ++
+            (match q.id with | some v => "#" ++ renderId v | none => "")
+        return Json.mkObj [("paths", .arr (paths.map fun p => Json.arr ((pre ++ p.map render).map Json.str).toArray).toArray)]
+    | _ => return Json.mkObj [("error", .str "chunk-not-object")]
+  (act.run {}).1
+
 def runPoint (j : Json) : Json :=
   let p := (getStr j "point").toList
   match Pt.parsePoint p with
@@ -114,6 +147,7 @@ def handle (j : Json) : Json :=
   | "merge" => runMerge j
   | "insert" => runInsert j
   | "point" => runPoint j
+  | "findpts" => runFindPts j
   | "intro" => runIntro j
   | "cache" =>
     -- plans are identified by the text they were planned from
